@@ -428,4 +428,13 @@ theorem dtBump_dec : ∀ (parts : List (Int × Per)) (t : Int), parts ≠ [] →
     simp only [dtBump, List.foldl] at h2 ⊢
     omega
 
+theorem tdDays_pos (x : Int) (hx : 0 < x) (hal : x % DAY = 0) : 0 < tdDays x := by
+  unfold tdDays; unfold DAY at *; omega
+
+theorem tdDays_neg (x : Int) (hx : x < 0) : tdDays x < 0 := by
+  unfold tdDays; unfold DAY at *; omega
+
+theorem tdDays_nonneg (x : Int) (hx : 0 ≤ x) : 0 ≤ tdDays x := by
+  unfold tdDays; unfold DAY at *; omega
+
 end Pyg.DRange
